@@ -51,9 +51,9 @@ def register(P):
     P.ORACLE_COMPONENT["nagle"] = "vsock"
     P.KNOWN_DEMOS[_json.dumps({"oracle": "stream", "what": "diverged_after_delivered_probe_was_resplit"}, sort_keys=True)] = _demo_d2(P)
     reg(P, "C18", ["UtpVerif.Props.C18"], ["stream_content", "nagle"])
-    reg(P, "C05", ["UtpVerif.Props.C05"], ["window"])
+    reg(P, "C05", ["UtpVerif.Props.C05"], ["window", "slow_start"])
     reg(P, "C07", ["UtpVerif.Props.C07"], ["ack_timeliness"])
-    reg(P, "C17", ["UtpVerif.Props.C17"], ["stream_content", "fin_sent"])
+    reg(P, "C17", ["UtpVerif.Props.C17"], ["stream_content", "fin_sent", "reset"])
     reg(P, "C01", ["UtpVerif.Props.C01"], ["stream_content"], ["segs", "txring", "rx"])
     reg(P, "C02", ["UtpVerif.Props.C02"], ["calls_resolve", "ack_timeliness", "rtx_timer", "zero_window_probe"], ["txring", "rx"])
     reg(P, "C03", ["UtpVerif.Props.C03"], ["calls_resolve", "stream_content", "ack_honesty", "fin_sent"], ["txring", "rx"])
@@ -73,6 +73,9 @@ def register(P):
     P.PROPS["C14"]["components"].append("vsock")
     P.PROPS["C14"]["oracles"]["datagram_sizes"] = VO.ALL["datagram_sizes"]
     P.PROPS["C14"]["oracles"]["stream_content"] = VO.ALL["stream_content"]
+    P.PROPS["C14"]["oracles"]["probe_discipline"] = VO.ALL["probe_discipline"]
+    for _o in ("probe_discipline", "reset", "slow_start"):
+        P.ORACLE_COMPONENT[_o] = "vsock"
     P.ORACLE_COMPONENT["datagram_sizes"] = "vsock"
     P.PROPS["C04"]["components"].append("vsock")
     P.PROPS["C04"]["oracles"]["ack_honesty"] = VO.ALL["ack_honesty"]
